@@ -60,21 +60,32 @@ structure Local where
   entry : Int
   pending : List (Nat × Int)
   snapshot : Option Net
+  /-- does the handler of the open try-region catch every `BaseException`? -/
+  catchAll : Bool
 deriving Repr
 
-/-- Interpretation of a micro-op list.  `faulty n` says whether the `n`-th invocation of a
-    user callable (counted over the whole life of the object) raises.  An exception aborts
-    the list at that point, leaving the effects of the earlier micro-ops, except that the
-    handler of an enclosing `tryBegin … tryEnd` region first restores the network saved at
-    `tryBegin`.  Returns the new state and whether the step completed. -/
-def runOps (faulty : Nat → Bool) : List MicroOp → Local → BState → BState × Bool
+/-- Fault oracle: `raises n` — the `n`-th invocation of a user callable (counted over the whole
+    life of the object) raises; `base n` — what it raises is a `BaseException` that is NOT an
+    `Exception` (KeyboardInterrupt, a user abort class).  The property does not restrict the
+    exception type. -/
+structure Oracle where
+  raises : Nat → Bool
+  base : Nat → Bool
+
+/-- Interpretation of a micro-op list.  An exception aborts the list at that point, leaving
+    the effects of the earlier micro-ops, except that the handler of an enclosing
+    `tryBegin … tryEnd` region — if it catches the class of the exception — first restores the
+    network saved at `tryBegin`.  Returns the new state and whether the step completed. -/
+def runOps (faulty : Oracle) : List MicroOp → Local → BState → BState × Bool
   | [], _, b => (b, true)
   | .callUser i v :: rest, l, b =>
     let arg := v.eval l.entry
     let b1 : BState := { b with calls := b.calls + 1, trace := b.trace ++ [(i, arg)] }
-    if faulty b.calls then
+    if faulty.raises b.calls then
       (match l.snapshot with
-        | some n0 => { b1 with core := { b1.core with net := n0 } }
+        | some n0 =>
+          if l.catchAll || !faulty.base b.calls then { b1 with core := { b1.core with net := n0 } }
+          else b1
         | none => b1, false)
     else runOps faulty rest { l with pending := l.pending ++ [(i, arg)] } b1
   | .setStep v :: rest, l, b =>
@@ -84,7 +95,8 @@ def runOps (faulty : Nat → Bool) : List MicroOp → Local → BState → BStat
       { b with core := { b.core with net := b.core.net ++ [.adv (v.eval l.entry) l.pending] } }
   | .store :: rest, l, b =>
     runOps faulty rest l { b with core := { b.core with stored := (b.core.net, l.pending) } }
-  | .tryBegin :: rest, l, b => runOps faulty rest { l with snapshot := some b.core.net } b
+  | .tryBegin ca :: rest, l, b =>
+    runOps faulty rest { l with snapshot := some b.core.net, catchAll := ca } b
   | .tryEnd :: rest, l, b => runOps faulty rest { l with snapshot := none } b
   -- not produced for these backends (`faultSafe`/`stepOpsOnly` reject lists containing them)
   | .initStep :: rest, l, b => runOps faulty rest l b
@@ -92,12 +104,15 @@ def runOps (faulty : Nat → Bool) : List MicroOp → Local → BState → BStat
   | .control _ _ :: rest, l, b => runOps faulty rest l b
   | .record :: rest, l, b => runOps faulty rest l b
   | .initResults :: rest, l, b => runOps faulty rest l b
+  | .traceCompute :: rest, l, b => runOps faulty rest l b
+  | .traceRead :: rest, l, b => runOps faulty rest l b
+  | .traceClear :: rest, l, b => runOps faulty rest l b
 
 /-- one `compute_step()` of the backend -/
-def backendStep (faulty : Nat → Bool) (ops : List MicroOp) (b : BState) : BState × Bool :=
-  runOps faulty ops ⟨b.core.step, [], none⟩ b
+def backendStep (faulty : Oracle) (ops : List MicroOp) (b : BState) : BState × Bool :=
+  runOps faulty ops ⟨b.core.step, [], none, false⟩ b
 
-def noFault : Nat → Bool := fun _ => false
+def noFault : Oracle := ⟨fun _ => false, fun _ => false⟩
 
 /-- scan state of `faultSafe` -/
 structure Scan where
@@ -115,21 +130,24 @@ def scanOps : List MicroOp → Scan → Bool
   | .store :: rest, s => scanOps rest { s with dirty := true }
   | .mutate _ :: rest, s =>
     if s.inTry then scanOps rest { s with prot := true } else scanOps rest { s with dirty := true }
-  | .tryBegin :: rest, s => !s.inTry && scanOps rest { s with inTry := true, prot := false }
+  -- a handler that does not catch every BaseException protects nothing
+  | .tryBegin ca :: rest, s =>
+    !s.inTry && ca && scanOps rest { s with inTry := true, prot := false }
   | .tryEnd :: rest, s =>
     s.inTry && scanOps rest { dirty := s.dirty || s.prot, prot := false, inTry := false }
   | _ :: _, _ => false
 
 /-- The ordering property: whenever a user callable is invoked, nothing that the step has done
     so far would survive an exception — every `callUser` comes before all `setStep` / `store`
-    and before every `mutate` that is not inside a restoring try-region still open at the call. -/
+    and before every `mutate` that is not inside a restoring try-region still open at the call
+    whose handler catches EVERY exception class (`tryBegin true`). -/
 def faultSafe (ops : List MicroOp) : Bool := scanOps ops ⟨false, false, false⟩
 
 /-- only the micro-ops that `runOps` gives a meaning to -/
 def stepOpsOnly : List MicroOp → Bool
   | [] => true
   | .callUser _ _ :: r | .setStep _ :: r | .mutate _ :: r | .store :: r
-  | .tryBegin :: r | .tryEnd :: r => stepOpsOnly r
+  | .tryBegin _ :: r | .tryEnd :: r => stepOpsOnly r
   | _ :: _ => false
 
 /-- the last assignment of the step counter in the list -/
@@ -149,7 +167,7 @@ deriving Repr
 def Obj.fresh : Obj := ⟨false, ⟨⟨0, [], ([], [])⟩, 0, []⟩, Dyn.empty⟩
 
 /-- the loop of `compute`: `n` backend steps, each followed by `dynamics.add` -/
-def stepLoop (faulty : Nat → Bool) (ops : List MicroOp) (time : Int → Rat) :
+def stepLoop (faulty : Oracle) (ops : List MicroOp) (time : Int → Rat) :
     Nat → Obj → Obj × Bool
   | 0, o => (o, true)
   | n+1, o =>
@@ -168,13 +186,13 @@ def startObj (time : Int → Rat) (initStep : Int) (o : Obj) : Obj :=
 /-- `Tempo.compute(end_time)` / `MeanFieldTempo.compute(end_time)`; the Boolean says whether
     the call returned normally (`false`: the user callable's exception propagated). -/
 def compute (numStep : Int → Rat → Int) (time : Int → Rat) (initStep : Int)
-    (ops : List MicroOp) (faulty : Nat → Bool) (o : Obj) (e : Rat) : Obj × Bool :=
+    (ops : List MicroOp) (faulty : Oracle) (o : Obj) (e : Rat) : Obj × Bool :=
   let o1 := startObj time initStep o
   stepLoop faulty ops time (numStep o1.b.core.step e).toNat o1
 
 /-- a history of compute calls; a failed call is simply followed by the next one -/
 def runHist (numStep : Int → Rat → Int) (time : Int → Rat) (initStep : Int)
-    (ops : List MicroOp) (faulty : Nat → Bool) (targets : List Rat) (o : Obj) : Obj :=
+    (ops : List MicroOp) (faulty : Oracle) (targets : List Rat) (o : Obj) : Obj :=
   targets.foldl (fun o e => (compute numStep time initStep ops faulty o e).1) o
 
 /-- what `get_dynamics()` shows plus the persistent backend state, without the book-keeping -/
@@ -309,7 +327,10 @@ deriving DecidableEq, Repr
 structure Tebd where
   step : Option Int
   chain : List ChainEv
+  /-- recorded results: (step, the chain state whose traces were read for this entry) -/
   results : List (Int × List ChainEv)
+  /-- the temporary traces kept in the backend: which chain state they were computed from -/
+  traces : Option (List ChainEv)
 deriving DecidableEq, Repr
 
 /-- static configuration of a `PtTebd` object -/
@@ -319,6 +340,33 @@ structure TebdCfg where
   hasCtrl : Bool → Int → Bool
   /-- the operations already contained in the supplied initial augmented MPS -/
   initial : List ChainEv
+
+/-- does every control-flow path of `PtTebdBackend.compute_traces` recompute the traces? -/
+def tracesAlwaysFresh : Bool := tebd_compute_traces_paths.all (fun p => p.contains .traceCompute)
+
+/-- `backend.compute_traces(..)`: if some path returns without recomputing, that path is
+    assumed to be the one taken whenever traces are still present (worst case). -/
+def computeTraces (t : Tebd) : Tebd :=
+  if tracesAlwaysFresh then { t with traces := some t.chain }
+  else match t.traces with
+    | some _ => t
+    | none => { t with traces := some t.chain }
+
+/-- Interpretation of the result-recording / getter lists: state, the traces last read
+    (`none`: nothing read yet), and whether a result was recorded. -/
+def traceRun : List MicroOp → Tebd → Option (List ChainEv) → Bool →
+    Tebd × Option (List ChainEv) × Bool
+  | [], t, rd, rc => (t, rd, rc)
+  | .traceCompute :: r, t, rd, rc => traceRun r (computeTraces t) rd rc
+  | .traceRead :: r, t, _, rc => traceRun r t t.traces rc
+  | .traceClear :: r, t, rd, rc => traceRun r { t with traces := none } rd rc
+  | .record :: r, t, rd, _ => traceRun r t rd true
+  | _ :: r, t, rd, rc => traceRun r t rd rc
+
+/-- `PtTebd._append_results()`: one entry made from the traces that were read -/
+def tebdAppend (t : Tebd) : Tebd :=
+  let r := traceRun tebd_append_results t none false
+  if r.2.2 then { r.1 with results := r.1.results ++ [(t.step.getD 0, r.2.1.getD [])] } else r.1
 
 def tebdRun (cfg : TebdCfg) (entry : Int) : List MicroOp → Tebd → Tebd
   | [], t => t
@@ -332,20 +380,28 @@ def tebdRun (cfg : TebdCfg) (entry : Int) : List MicroOp → Tebd → Tebd
   | .setStep v :: rest, t => tebdRun cfg entry rest { t with step := some (v.eval entry) }
   | .mutate v :: rest, t =>
     tebdRun cfg entry rest { t with chain := t.chain ++ [.evolve (v.eval entry)] }
-  | .record :: rest, t =>
-    tebdRun cfg entry rest
-      { t with results := t.results ++ [((t.step.getD 0), t.chain)] }
+  | .record :: rest, t => tebdRun cfg entry rest (tebdAppend t)
   | .store :: rest, t => tebdRun cfg entry rest t
   | .callUser _ _ :: rest, t => tebdRun cfg entry rest t
-  | .tryBegin :: rest, t => tebdRun cfg entry rest t
+  | .tryBegin _ :: rest, t => tebdRun cfg entry rest t
   | .tryEnd :: rest, t => tebdRun cfg entry rest t
+  | .traceCompute :: rest, t => tebdRun cfg entry rest t
+  | .traceRead :: rest, t => tebdRun cfg entry rest t
+  | .traceClear :: rest, t => tebdRun cfg entry rest t
 
 def tebdOpsOnly : List MicroOp → Bool
   | [] => true
-  | .callUser _ _ :: _ | .tryBegin :: _ | .tryEnd :: _ => false
+  | .callUser _ _ :: _ | .tryBegin _ :: _ | .tryEnd :: _ => false
+  | .traceCompute :: _ | .traceRead :: _ | .traceClear :: _ => false
   | _ :: r => tebdOpsOnly r
 
-def Tebd.fresh : Tebd := ⟨none, [], []⟩
+/-- the result-recording / getter lists may only touch the traces and record -/
+def traceOpsOnly : List MicroOp → Bool
+  | [] => true
+  | .traceCompute :: r | .traceRead :: r | .traceClear :: r | .record :: r => traceOpsOnly r
+  | _ :: _ => false
+
+def Tebd.fresh : Tebd := ⟨none, [], [], none⟩
 
 /-- `PtTebd.initialize()`; step values in the list are relative to the start step -/
 def tebdInit (cfg : TebdCfg) (t : Tebd) : Tebd := tebdRun cfg cfg.startStep tebd_initialize t
@@ -364,6 +420,35 @@ def tebdCompute (cfg : TebdCfg) (t : Tebd) (endStep : Int) : Tebd :=
 
 def tebdHist (cfg : TebdCfg) (targets : List Int) : Tebd :=
   targets.foldl (tebdCompute cfg) Tebd.fresh
+
+/-- calls a user can make on a `PtTebd` object -/
+inductive TebdOp where
+  | compute (endStep : Int)
+  | getDM        -- get_current_density_matrix(sites)
+  | getResults   -- get_results()
+  | getMPS       -- get_augmented_mps()
+deriving DecidableEq, Repr
+
+/-- a read-only getter, interpreted from its regenerated list (on an object that has not
+    been initialised yet the getters have nothing to read: modelled as no-ops) -/
+def tebdGetter (ops : List MicroOp) (t : Tebd) : Tebd :=
+  match t.step with
+  | none => t
+  | some _ => (traceRun ops t none false).1
+
+def tebdOp (cfg : TebdCfg) (t : Tebd) : TebdOp → Tebd
+  | .compute e => tebdCompute cfg t e
+  | .getDM => tebdGetter tebd_get_dm t
+  | .getResults => tebdGetter tebd_get_results t
+  | .getMPS => tebdGetter tebd_get_mps t
+
+def tebdOpHist (cfg : TebdCfg) (ops : List TebdOp) : Tebd := ops.foldl (tebdOp cfg) Tebd.fresh
+
+/-- the compute calls of a history -/
+def computesOf : List TebdOp → List Int
+  | [] => []
+  | .compute e :: r => e :: computesOf r
+  | _ :: r => computesOf r
 
 /-- a new object built from the exported chain state and step number of `t` -/
 def tebdRestartCfg (cfg : TebdCfg) (t : Tebd) : TebdCfg :=
